@@ -1,5 +1,7 @@
 import LJT.Proofs.SeqHuff
 import LJT.Proofs.ProgAC
+import LJT.Proofs.ProgRef
+import LJT.Model.ProgHuff
 /-! # C03 - entropy coding and scan structure never change the coefficients
 
 Property theorems about `LJT.SeqHuff` (Model/SeqHuff.lean: the block coder of
@@ -105,6 +107,68 @@ example : ProgAC.WF 2 [[1, 0], [0, 0], [0, 0]] ∧
     simp at hb
     rcases hb with rfl | rfl | rfl <;> decide
   · decide
+
+/-- **A refinement AC scan round-trips** (progressive mode, T.81 G.1.2.3 / figure G.7;
+src/jcphuff.c `encode_mcu_AC_refine` with `emit_eobrun`, the EOBRUN counter and the BE/BR
+correction-bit buffers): for every sequence of blocks of a restart interval - bands of any length
+`L ≥ 1`, every coefficient given as (|c| >> Al, sign) with no bound on the magnitude - any `p = 2^Al
+> 0`, every valid AC table containing the symbols used, and whatever follows: when the decoder holds
+the values known before the scan (`prevOf`: the bits above Al), running the reader's block procedure
+over the encoder model's bits yields exactly the values after the scan (`newOf`: the bits down to
+Al), ends with no pending run and leaves exactly what followed.  Covered: ZRL folding into EOB
+(`hasOne`), correction bits travelling with ZRL / symbol / EOBn, runs of blocks without a
+newly-nonzero coefficient, the forced flushes at EOBRUN = 0x7FFF and BE > 937.  `ProgAC.refEv` is
+what `ProgHuff.acScanIntervals` calls, `ProgAC.refDecBlock` what `T81.acRefineBlock` runs. -/
+theorem ac_refine_scan_roundtrip (t : Tbl) (c : CDerived) (dd : DDerived)
+    (hc : mkCDerived false false t = some c) (hd : mkDDerived false false t = some dd)
+    (p : Int) (hp : 0 < p) (L : Nat) (hL : 1 ≤ L) (blocks : List (List (Nat × Bool)))
+    (hwf : ∀ b ∈ blocks, b.length = L)
+    (henc : ∀ s, ProgAC.Ev.sym s ∈ ProgAC.refEv 0 [] blocks → (encode c s).isSome = true) (rest : List Bool) :
+    ProgAC.refDecBlocks (decode dd) p (blocks.map (ProgAC.prevs p)) 0
+      (ProgAC.evBits (codeOf c) (ProgAC.refEv 0 [] blocks) ++ rest) = .ok (blocks.map (ProgAC.news p), 0, rest) :=
+  (ProgAC.ref_blocks (codeOf c) (decode dd) p hp L hL blocks hwf).1 rest
+    (fun s hs => codeOf_good t c dd hc hd s (henc s hs))
+
+/-- what the decoder holds before the refinement scan at level `al` is what the scan at level
+`al + 1` (first pass or refinement) left: the scans chain -/
+theorem refinement_chain (v : Int) (al : Nat) :
+    ProgAC.prevOf (2 ^ al) (ProgHuff.pointRef al v) = ProgAC.newOf (2 ^ (al + 1)) (ProgHuff.pointRef (al + 1) v) := by
+  unfold ProgAC.prevOf ProgAC.newOf ProgAC.sgn ProgHuff.pointRef
+  simp only
+  have hdd : v.natAbs / 2 ^ (al + 1) = v.natAbs / 2 ^ al / 2 := by rw [Nat.pow_succ, Nat.div_div_eq_div_mul]
+  rw [hdd]
+  generalize v.natAbs / 2 ^ al = a
+  by_cases h : a ≤ 1
+  · rw [if_pos h, show a / 2 = 0 by omega]; simp
+  · rw [if_neg h, Int.pow_succ]
+    push_cast
+    rw [Int.mul_assoc, Int.mul_assoc, Int.mul_assoc]
+    congr 2
+    rw [Int.mul_comm ((2 : Int) ^ al) 2]
+
+/-- the first pass at level `al` stores the same value -/
+theorem first_pass_value (v : Int) (al : Nat) :
+    ProgHuff.pointFirst al v * 2 ^ al = ProgAC.newOf (2 ^ al) (ProgHuff.pointRef al v) := by
+  unfold ProgHuff.pointFirst ProgAC.newOf ProgAC.sgn ProgHuff.pointRef
+  simp only
+  by_cases h : v < 0
+  · simp [h]
+  · simp [h]
+
+/-- after the scan at level 0 the coefficient is exact -/
+theorem refinement_complete (v : Int) : ProgAC.newOf (2 ^ 0) (ProgHuff.pointRef 0 v) = v := by
+  unfold ProgAC.newOf ProgAC.sgn ProgHuff.pointRef
+  simp only [Nat.pow_zero, Nat.div_one, Int.pow_zero, Int.mul_one]
+  by_cases h : v < 0
+  · simp only [h, decide_true, if_true]; omega
+  · simp only [h, decide_false, Bool.false_eq_true, if_false]; omega
+
+/-- non-vacuity of the refinement theorem: a band of 18 coefficients with a history coefficient,
+16 zeros and a newly-nonzero one makes the encoder emit a ZRL carrying a correction bit, then the
+symbol of the new coefficient; a second, quiet block is folded into an EOB run with its correction bit -/
+example : ProgAC.refEv 0 [] [[(2, false)] ++ List.replicate 16 (0, false) ++ [(1, true)], [(3, false)] ++ List.replicate 17 (0, false)] =
+    [.sym 0xF0, .bits 0 1, .sym 1, .bits 0 1, .sym 0, .bits 1 1] := by
+  decide
 
 /-- non-vacuity: a small valid AC table (EOB, a run-0 size-1 symbol and ZRL) meets the
 hypotheses of the theorems above, and a block with a coefficient is encodable with it -/
